@@ -20,6 +20,14 @@ IDENTIFIER_FIXED = ["", "1", "0001", "a/b", "x#y", "a b", "é", "A", "a_1", "1:2
 LONG_BASES = ["http://purl.obolibrary.org/obo/", "https://example.org/ns#", "urn:x:", "http://purl.obolibrary.org/obo/CHEBI_", "HTTP://EXAMPLE.ORG/"]
 
 
+def txt(alphabet, *, min_size: int = 0, max_size: int = 4) -> st.SearchStrategy[str]:
+    """Text over a small alphabet, built from integer choices.
+
+    Deliberately NOT st.text(alphabet=...): Hypothesis 6.168's shrinker (minimize_duplicated_choices) crashes with
+    "ValueError: N is not in list" when two equal string choices come from text strategies with different alphabets."""
+    return st.lists(st.sampled_from(list(alphabet)), min_size=min_size, max_size=max_size).map("".join)
+
+
 def delimiters() -> st.SearchStrategy[str]:
     return st.sampled_from([":", ":", ":", ":", ":", ":", "/", "|", "_", "::", "-", "="])
 
@@ -48,7 +56,7 @@ def curie_pool(draw, min_size: int, max_size: int, *, forbidden: str = "", allow
                 for ch in set(forbidden):
                     new = new.replace(ch, "")
         else:
-            new = draw(st.text(st.sampled_from(alpha), min_size=0, max_size=4))
+            new = draw(txt(alpha, min_size=0, max_size=4))
         if (new or allow_empty) and new not in pool and (not forbidden or forbidden not in new):
             pool.append(new)
     i = 0
@@ -72,7 +80,7 @@ def uri_pool(draw, min_size: int, max_size: int, *, alphabet: str = URI_ALPHA, a
         if pool and mode <= 6:
             base = draw(st.sampled_from(pool))
             if mode <= 2:
-                new = base + draw(st.text(st.sampled_from(alphabet), min_size=1, max_size=2))
+                new = base + draw(txt(alphabet, min_size=1, max_size=2))
             elif mode == 3:
                 new = base[:-1]
             elif mode == 4:
@@ -84,9 +92,9 @@ def uri_pool(draw, min_size: int, max_size: int, *, alphabet: str = URI_ALPHA, a
         elif unicode_arm and mode == 7:
             new = draw(st.text(UNICODE, max_size=4))
         elif long_arm and mode == 8:
-            new = draw(st.sampled_from(LONG_BASES)) + draw(st.text(st.sampled_from(alphabet), max_size=2))
+            new = draw(st.sampled_from(LONG_BASES)) + draw(txt(alphabet, max_size=2))
         else:
-            new = draw(st.text(st.sampled_from(alphabet), min_size=0, max_size=4))
+            new = draw(txt(alphabet, min_size=0, max_size=4))
         if (new or allow_empty) and new not in pool:
             pool.append(new)
     i = 0
@@ -189,7 +197,7 @@ def converter_specs(draw, *, delimiter=None, **kw):
 def identifiers(delimiter: str = ":") -> st.SearchStrategy[str]:
     return st.one_of(
         st.sampled_from(IDENTIFIER_FIXED + [delimiter, "1" + delimiter + "2", delimiter + "x"]),
-        st.text(st.sampled_from("ab1/_#: é"), max_size=5),
+        txt("ab1/_#: é", max_size=5),
         st.text(UNICODE, max_size=5),
     )
 
@@ -234,7 +242,7 @@ def uri_probes(draw, records, *, extra: int = 6, delimiter: str = ":"):
                 tail = q[draw(st.integers(0, max(0, len(q) - 1))):] + tail
             out.append(p + tail)
         elif mode == 2:
-            out.append(draw(st.text(st.sampled_from(URI_ALPHA), max_size=7)))
+            out.append(draw(txt(URI_ALPHA, max_size=7)))
         else:
             out.append(draw(st.text(UNICODE, max_size=6)))
     out.append("")
@@ -261,9 +269,9 @@ def curie_probes(draw, records, delimiter: str, *, extra: int = 8):
                 p = p[:-1] if draw(st.booleans()) else p + draw(st.sampled_from(alpha))
             out.append(p + delimiter + ident)
         elif mode == 3:
-            out.append(draw(st.text(st.sampled_from(alpha), max_size=3)) + delimiter + ident)
+            out.append(draw(txt(alpha, max_size=3)) + delimiter + ident)
         elif mode == 4:
-            out.append(draw(st.text(st.sampled_from(alpha + " "), max_size=5)))  # maybe delimiter-free
+            out.append(draw(txt(alpha + " ", max_size=5)))  # maybe delimiter-free
         else:
             out.append(draw(st.text(UNICODE, max_size=6)))
     out.extend(["", delimiter, "nodelim" if delimiter not in "nodelim" else "x"])
